@@ -46,13 +46,17 @@ DC(tag, fs) == [d |-> "C", tag |-> tag, fs |-> fs]
 Builtins == [i \in 1..Len(BuiltinNames) |-> Bi(BuiltinNames[i])]
 
 Strings == << <<>>, <<97>>, <<34>>, <<92>>, <<10>>, <<13>>, <<9>>, <<39>>, <<0>>, <<127>>, <<233>>, <<8232>>, <<128512>>,
-              <<97, 34, 92, 110>>, <<92, 120, 52, 49>>, <<32, 45, 45, 32, 120>>, <<40, 41, 91, 93>>, <<233, 97, 128512, 34>> >>
+              <<97, 34, 92, 110>>, <<92, 120, 52, 49>>, <<32, 45, 45, 32, 120>>, <<40, 41, 91, 93>>, <<233, 97, 128512, 34>>,
+              <<1>>, <<27, 91>>, <<8203>>, <<65279, 97>>, <<97, 0, 98>> >>
 
 Consts ==
     << MkInt(0), MkInt(1), MkInt(0 - 1), MkInt(2147483647), MkInt(0 - 2147483647),
        MkBs(<<>>), MkBs(<<0>>), MkBs(<<255, 1, 171>>),
        MkUnit, MkBool(TRUE), MkBool(FALSE) >>
     \o [i \in 1..Len(Strings) |-> MkStr(Strings[i])]
+    \* the same strings NESTED in a list and in a pair (nested constants go through another printer)
+    \o [i \in 1..Len(Strings) |-> MkList(TStr, <<MkStr(Strings[i])>>)]
+    \o [i \in 1..Len(Strings) |-> MkPair(TInt, TStr, MkInt(1), MkStr(Strings[i]))]
     \o << MkData(DI(0)), MkData(DI(0 - 5)), MkData(DB(<<>>)), MkData(DB(<<1, 2>>)), MkData(DL(<<>>)), MkData(DL(<<DI(1), DB(<<>>)>>)),
           MkData(DM(<<>>)), MkData(DM(<<<<DI(1), DB(<<2>>)>>, <<DL(<<>>), DC(0, <<>>)>>>>)),
           MkData(DC(0, <<>>)), MkData(DC(6, <<DI(1)>>)), MkData(DC(7, <<>>)), MkData(DC(127, <<DI(1), DI(2)>>)), MkData(DC(128, <<>>)),
@@ -80,14 +84,24 @@ Terms ==
 Cases == Builtins \o [i \in 1..Len(Consts) |-> Con(Consts[i])] \o Terms
          \o [i \in 1..Len(Consts) |-> Lam(App(Var(1), Con(Consts[i])))]
 
+\* integers beyond a machine word: 1000001 .. 1000006 stand for 2^63, -2^63 - 1, 2^64, -2^64, 2^64 + 1, 2^127 (the harness substitutes
+\* them in the term and in the text alike; TLC's integers are 32-bit). Text only: their flat / CBOR encodings are not computed.
+Bigs == <<1000001, 1000002, 1000003, 1000004, 1000005, 1000006>>
+BigConsts ==
+    [i \in 1..Len(Bigs) |-> MkInt(Bigs[i])] \o [i \in 1..Len(Bigs) |-> MkData(DI(Bigs[i]))]
+    \o << MkData(DC(1, <<DI(1000001), DL(<<DI(1000002)>>)>>)), MkData(DM(<<<<DI(1000003), DI(1000004)>>>>)),
+          MkList(TData, <<MkData(DI(1000005))>>), MkPair(TData, TData, MkData(DI(1000006)), MkData(DI(1000002))),
+          MkList(TInt, <<MkInt(1000001), MkInt(1000004)>>) >>
+TextCases == Cases \o [i \in 1..Len(BigConsts) |-> Con(BigConsts[i])]
+
 VARIABLES n
-Init == n \in 1..Len(Cases)
+Init == n \in 1..Len(TextCases)
 Next == UNCHANGED n
 Spec == Init /\ [][Next]_n
 
 \* the table has no duplicate names (the concrete syntax is a bijection onto the built-in functions)
 NamesDistinct == \A i, j \in 1..Len(BuiltinNames) : BuiltinNames[i] = BuiltinNames[j] => i = j
 
-Emit == PrintT(<<"REPLAY", ToJson([id |-> n, term |-> Cases[n], v110 |-> PrintProgram(1, 1, 0, Cases[n]),
-                                   v100 |-> PrintProgram(1, 0, 0, Cases[n])])>>)
+Emit == PrintT(<<"REPLAY", ToJson([id |-> n, term |-> TextCases[n], v110 |-> PrintProgram(1, 1, 0, TextCases[n]),
+                                   v100 |-> PrintProgram(1, 0, 0, TextCases[n])])>>)
 =============================================================================
